@@ -4,7 +4,8 @@
    archiver / gpg / reader / splitter / uploader pipeline as a transition system over its 5449 reachable states. *)
 From Coq Require Import List Arith NArith Bool.
 Import ListNotations.
-Require Import Providers2 Dropbox2 Pipeline PipelineProof.
+Require Import Providers2 Dropbox2 Pipeline PipelineProof C05Cor.
+Require Sync SyncAttempts.
 
 (* Dropbox: whatever the server answers, if the final name changed then the call succeeded, the name was free, it now
    holds exactly the appended bodies, and the finalisation carried their length and the server-side checksum *)
@@ -62,6 +63,81 @@ Check C05_google_final_only_if_verified :
   res = true /\
   (exists n : nat, Providers2.terminal evs = Some (n, Hsrv (payload evs)) /\ n <> 0 /\ gfinal s' = gfinal s ++ [payload evs]).
 
+(* failure half: a failed upload_file call leaves the final name exactly as it was, for every reply oracle *)
+Theorem C05_dropbox_failure_leaves_final :
+  forall (reply : nat -> rep) (Hsrv : bytes -> bytes) (beqb : bytes -> bytes -> bool),
+  (forall a b : bytes, reflect (a = b) (beqb a b)) ->
+  forall evs s s', dropbox reply Hsrv beqb evs s = (s', false) -> dfinal s' = dfinal s.
+Proof. exact dropbox_failure_leaves_final. Qed.
+Check C05_dropbox_failure_leaves_final :
+  forall (reply : nat -> rep) (Hsrv : bytes -> bytes) (beqb : bytes -> bytes -> bool),
+  (forall a b : bytes, reflect (a = b) (beqb a b)) ->
+  forall evs s s', dropbox reply Hsrv beqb evs s = (s', false) -> dfinal s' = dfinal s.
+Theorem C05_yandex_failure_leaves_final :
+  forall (reply : nat -> rep) (Hsrv : bytes -> bytes) (beqb : bytes -> bytes -> bool),
+  (forall a b : bytes, reflect (a = b) (beqb a b)) ->
+  forall polls evs s s', yandex reply Hsrv beqb polls evs s = (s', false) -> yfinal s' = yfinal s.
+Proof. exact yandex_failure_leaves_final. Qed.
+Check C05_yandex_failure_leaves_final :
+  forall (reply : nat -> rep) (Hsrv : bytes -> bytes) (beqb : bytes -> bytes -> bool),
+  (forall a b : bytes, reflect (a = b) (beqb a b)) ->
+  forall polls evs s s', yandex reply Hsrv beqb polls evs s = (s', false) -> yfinal s' = yfinal s.
+Theorem C05_google_failure_leaves_final :
+  forall (reply : nat -> rep) (Hsrv : bytes -> bytes) (beqb : bytes -> bytes -> bool),
+  (forall a b : bytes, reflect (a = b) (beqb a b)) ->
+  forall evs s s', google reply Hsrv beqb evs s = (s', false) -> gfinal s' = gfinal s.
+Proof. exact google_failure_leaves_final. Qed.
+Check C05_google_failure_leaves_final :
+  forall (reply : nat -> rep) (Hsrv : bytes -> bytes) (beqb : bytes -> bytes -> bool),
+  (forall a b : bytes, reflect (a = b) (beqb a b)) ->
+  forall evs s s', google reply Hsrv beqb evs s = (s', false) -> gfinal s' = gfinal s.
+
+(* encryption / archiving failure: a chunk stream without a terminal checksum message (it ended with an error, or the
+   sender went away) never changes the final name, whatever the server answers *)
+Theorem C05_dropbox_no_terminal_no_final :
+  forall (reply : nat -> rep) (Hsrv : bytes -> bytes) (beqb : bytes -> bytes -> bool),
+  (forall a b : bytes, reflect (a = b) (beqb a b)) ->
+  forall evs s s' res, Providers2.terminal evs = None -> dropbox reply Hsrv beqb evs s = (s', res) -> dfinal s' = dfinal s.
+Proof. exact dropbox_no_terminal_no_final. Qed.
+Check C05_dropbox_no_terminal_no_final :
+  forall (reply : nat -> rep) (Hsrv : bytes -> bytes) (beqb : bytes -> bytes -> bool),
+  (forall a b : bytes, reflect (a = b) (beqb a b)) ->
+  forall evs s s' res, Providers2.terminal evs = None -> dropbox reply Hsrv beqb evs s = (s', res) -> dfinal s' = dfinal s.
+Theorem C05_yandex_no_terminal_no_final :
+  forall (reply : nat -> rep) (Hsrv : bytes -> bytes) (beqb : bytes -> bytes -> bool),
+  (forall a b : bytes, reflect (a = b) (beqb a b)) ->
+  forall polls evs s s' res, Providers2.terminal evs = None -> yandex reply Hsrv beqb polls evs s = (s', res) -> yfinal s' = yfinal s.
+Proof. exact yandex_no_terminal_no_final. Qed.
+Check C05_yandex_no_terminal_no_final :
+  forall (reply : nat -> rep) (Hsrv : bytes -> bytes) (beqb : bytes -> bytes -> bool),
+  (forall a b : bytes, reflect (a = b) (beqb a b)) ->
+  forall polls evs s s' res, Providers2.terminal evs = None -> yandex reply Hsrv beqb polls evs s = (s', res) -> yfinal s' = yfinal s.
+Theorem C05_google_no_terminal_no_final :
+  forall (reply : nat -> rep) (Hsrv : bytes -> bytes) (beqb : bytes -> bytes -> bool),
+  (forall a b : bytes, reflect (a = b) (beqb a b)) ->
+  forall evs s s' res, Providers2.terminal evs = None -> google reply Hsrv beqb evs s = (s', res) -> gfinal s' = gfinal s.
+Proof. exact google_no_terminal_no_final. Qed.
+Check C05_google_no_terminal_no_final :
+  forall (reply : nat -> rep) (Hsrv : bytes -> bytes) (beqb : bytes -> bytes -> bool),
+  (forall a b : bytes, reflect (a = b) (beqb a b)) ->
+  forall evs s s' res, Providers2.terminal evs = None -> google reply Hsrv beqb evs s = (s', res) -> gfinal s' = gfinal s.
+
+(* the remaining backups are still attempted: in the sync planner every backup of a window group that the cloud group lacks
+   (or whose group could be created) gets its upload attempt, whatever the creation / upload oracles answered before *)
+Theorem C05_remaining_backups_attempted :
+  forall (create_ok : N -> bool) (upload_ok : N -> N -> bool) l c ok0 max acts ok g tb b,
+  Sync.sync create_ok upload_ok l c ok0 max = (acts, ok) ->
+  In (g, tb) (Sync.target l c max) -> In b tb ->
+  match Sync.lookup g c with Some cb => ~ In b cb | None => create_ok g = true end ->
+  In (Sync.Upload g b) acts.
+Proof. exact SyncAttempts.all_attempted. Qed.
+Check C05_remaining_backups_attempted :
+  forall (create_ok : N -> bool) (upload_ok : N -> N -> bool) l c ok0 max acts ok g tb b,
+  Sync.sync create_ok upload_ok l c ok0 max = (acts, ok) ->
+  In (g, tb) (Sync.target l c max) -> In b tb ->
+  match Sync.lookup g c with Some cb => ~ In b cb | None => create_ok g = true end ->
+  In (Sync.Upload g b) acts.
+
 (* shutdown: no reachable pipeline state is stuck, and whenever the threads the main thread joins are done, gpg has
    been reaped and the reader thread no longer holds a sender *)
 Theorem C05_no_stuck_state : forall t, reachable t -> Pipeline.terminal t = false -> succ t <> [].
@@ -74,5 +150,12 @@ Check C05_terminal_is_clean : forall t, reachable t -> Pipeline.terminal t = tru
 Print Assumptions C05_dropbox_final_only_if_verified.
 Print Assumptions C05_yandex_final_only_if_verified.
 Print Assumptions C05_google_final_only_if_verified.
+Print Assumptions C05_dropbox_failure_leaves_final.
+Print Assumptions C05_yandex_failure_leaves_final.
+Print Assumptions C05_google_failure_leaves_final.
+Print Assumptions C05_dropbox_no_terminal_no_final.
+Print Assumptions C05_yandex_no_terminal_no_final.
+Print Assumptions C05_google_no_terminal_no_final.
+Print Assumptions C05_remaining_backups_attempted.
 Print Assumptions C05_no_stuck_state.
 Print Assumptions C05_terminal_is_clean.
